@@ -214,7 +214,7 @@ def ref_text(r):
     if st[0] == "f": s += "." + st[1]
     elif st[0] == "i": s += f"[{st[1]}]"
     elif st[0] == "sv": s += f"[{st[1]}*{st[2]}:{st[1]}*{st[2]}+{st[2]}]"        # loop-variable slice [i*w : i*w+w]
-    else: s += f"[{st[1]}:{st[2]}]"
+    else: s += f"[{st[1]}:{st[2]}]" if len(st) < 4 else f"[{st[1]}:{st[2]}:{st[3]}]"       # st[3]: a slice step (only in defective designs)
   return s
 
 
